@@ -33,10 +33,10 @@ class C29(Prop):
                  'WHATWG URL parser; differential correspondence of the Python half with the real validate_next_page_url/urlparse on a '
                  'grammar-based URL fuzzer; the browser half cross-checked against an independent state-machine transcription')
     level_text = ('For every deploy config whose four service hosts are plain lower-case DNS names and every string s: if the model of '
-                  'validate_next_page_url accepts s, the WHATWG parse of s (base https://<auth host>/) is either an http(s) URL whose host '
-                  'is exactly one of the four Hail hosts (default port), or a URL with a non-http(s) scheme. The full statement (always a '
-                  'Hail host) is refuted in Lean on javascript://auth.hail.is/%0aalert(1), which the REAL validator accepts (known '
-                  'finding); with the hypothesis "scheme absent, http or https" it is proved. The model of the Python half is compared '
+                  'validate_next_page_url (scheme in (http, https) and netloc verbatim one of the four hosts) accepts s, the WHATWG parse of s '
+                  '(base https://<auth host>/) is an http(s) URL whose host is exactly one of the four Hail hosts on the default port '
+                  '(accepted_lands_on_hail, no further hypothesis). The validator as it was before commit 46b6e6f3a is kept as validateOld: '
+                  'the statement is refuted for it in Lean on javascript://auth.hail.is/%0aalert(1). The model of the Python half is compared '
                   'with the real validator and the real urlparse on every run.')
     level_note = ('PARTIAL: browserDest is a hand transcription of the WHATWG URL Standard (scheme/authority/host/port states, ASCII '
                   'fast path of domain-to-ASCII, IPv4 parser) and of the Fetch rule that redirects to non-http(s) schemes are network '
@@ -203,7 +203,7 @@ class C29(Prop):
         ('a-b.c', '/x\ty'), ('hail.is.', None), ('', None), ('hail.is', '/a/b'),
     ]
     LEAD = [''] * 10 + [' ', '\t', '\n', '\x00', '\x01\x1f ', ' ', '\r\n', '\x0b']
-    SCHEMES = [''] * 8 + ['https'] * 10 + ['http'] * 5 + [ 'HTTPS', 'hTtP', 'javascript', 'data', 'vbscript', 'ftp', 'file', 'ws',
+    SCHEMES = [''] * 4 + ['https'] * 16 + ['http'] * 8 + [ 'HTTPS', 'hTtP', 'javascript', 'data', 'vbscript', 'ftp', 'file', 'ws',
                'wss', 'mailto', 'x-y+z.1', 'blob', '1http', 'ht tp', 'http\t', 'ht\ntps', '+http', 'h', 'https​', 'view-source', 'intent']
     COLON = [':'] * 12 + ['', '::', ' :', ':\t']
     SLASHES = ['//'] * 30 + ['/', '', '\\\\', '/\\', '\\/', '///', '////', '/\t/', '//\\', '/ /', '/\n/']
